@@ -1,0 +1,24 @@
+//go:build verif
+
+package fs
+
+// Contracts for the deductive verifier in /verif (govc). Comments only; compiled solely with -tags verif.
+
+// ---------------------------------------------------------------------------------------------
+// The CAS-backed file system view (C29)
+//
+// open follows symlinks by calling itself on the link's target. Only relative targets are followed (an
+// absolute one is an error), and the target is resolved against the directory of the link. For the recursion
+// to end on every tree — including one with a symlink loop — it needs a measure that decreases at each hop;
+// the path alone is none.
+//@ assume func (CASFileSystem).findNode
+//@ assume func (CASFileSystem).openFile
+//@ assume func (CASFileSystem).openDir
+//@ func (CASFileSystem).open
+//@   requires fs != nil
+//@   opt nopanic=off
+//@   opt inline=off
+//@   opt precall=off
+//@   callsite (CASFileSystem).open only_relative_links_resolved_beside_the_link [C29]: \
+//@      linkNode != nil && !filepath.IsAbs(linkNode.Target) && arg_name == filepath.Join(filepath.Dir(name), linkNode.Target)
+//@   callsite (CASFileSystem).open a_measure_decreases_at_every_hop [C29]: false
